@@ -248,6 +248,25 @@ def run(ctx):
                 rep.ok('R03.c', key, 'sizes/lengths/seqid are unsigned varints (u32)', b.loc())
             else:
                 rep.bad('R03.c', key, b.loc(), 'compact %s%s encodes its size with %s; the specification uses an unsigned 32-bit varint (no zigzag)' % (pre, x, sorted(vs)))
+    # message header byte 2: vvv t tttt -> version in the low 5 bits, message type in the high 3 bits
+    for label, d, pre in (('BytesMut writer', cf.W, 'write_'), ('LinkedBytes writer', cf.L, 'write_'), ('in-memory reader', cf.R, 'read_'), ('async reader', cf.A, 'read_')):
+        b = d.get(pre + 'message_begin')
+        key = 'R03.h|compact %s message header bits' % label
+        if b is None:
+            rep.anchor_missing('R03.h', 'compact %s %smessage_begin' % (label, pre))
+            continue
+        bits = [(t[1], t[2]) for t in cf.sig(b) if t[0] == 'bit']
+        if pre == 'read_':
+            allowed = {('BitAnd', 31), ('Shr', 5), ('BitAnd', 7)}
+            need = {('BitAnd', 31), ('Shr', 5)}
+        else:
+            allowed = {('BitAnd', 1), ('BitAnd', 31), ('Shl', 5), ('BitAnd', 224), ('BitOr', 1)}
+            need = {('Shl', 5)}
+        extra = [x for x in bits if x not in allowed]
+        if not extra and need <= set(bits):
+            rep.ok('R03.h', key, 'version = byte & 0x1f, type = byte >> 5 (3 bits): %s' % bits, b.loc())
+        else:
+            rep.bad('R03.h', key, b.loc(), 'compact %s%smessage_begin: the second header byte is (type << 5) | version with a 5-bit version and a 3-bit type (Call=1, Reply=2, Exception=3, OneWay=4); found bit operations %s (unexpected %s, missing %s)' % (pre, 'message_begin'[:0], bits, extra, sorted(need - set(bits))))
     # list/set header: short form iff size <= 14, long form 0xF0|type
     for label, d in (('BytesMut writer', cf.W), ('LinkedBytes writer', cf.L)):
         for x in ('list_begin', 'set_begin'):
@@ -371,4 +390,5 @@ def run(ctx):
     rep.floor('R03.c', 100)
     rep.floor('R03.d', 7)
     rep.floor('R03.e', 4)
+    tp.compact_typestate(rep, 'R03.f', prog, cg)
     return rep
